@@ -570,7 +570,7 @@ PROPS = {
                     "at quiescence); the fake broker of scenario A; which operations count as waiting for the broker only",
                     "the composed system of the serial-reply theorems assumes order-preserving queues per connection and no reuse of an open serial "
                     "(the latter is checked on every `cs` line); "
-                    "the composed invariant for channel messages (the broker emits them only in client states that accept them) is sampled by "
+                    "the composed invariant for calls and subscriptions, and the client's assertions about its own maps, are sampled by "
                     "scenarios B and F, not proved"],
     },
     "C15": {
